@@ -32,6 +32,8 @@ pub fn par_ranges<R: Send>(
                 }
                 let (a, b) = bounds[i];
                 let r = f(a..b);
+                // between blocks the worker is not inside the subject
+                crate::watch::idle();
                 *results[i].lock().unwrap() = Some(r);
             });
         }
